@@ -43,7 +43,7 @@ class BucketSpec:
             alike = ['incomes', 'income-tax', 'xincome', 'reinvestment', 'transferwise', ' transfer', 'food', '']
             lists = [None, []] + [[t] for t in specials + alike] + [list(p) for p in itertools.permutations(['income', 'transfer', 'investment'], 2)]
             lists += [[a, 'food'] for a in specials] + [['food', a] for a in alike]
-            for a in (-2.5, -0.0, 0.0, 3.0, nan):
+            for a in (-2.5, -0.0, 0.0, 3.0, nan, 0.125, -1.115, 2.675, 0.015, 1e-9, -1e15):
                 for t in lists:
                     if self.what == 'flows':
                         continue
